@@ -442,7 +442,7 @@ impl Server {
 
                         client.state = remote_client::State::Active(remote_client::ActiveState {
                             half_connection,
-                            timeout_time_ms: now_ms + self.config.endpoint_config.active_timeout_ms,
+                            timeout_time_ms: now_ms.saturating_add(self.config.endpoint_config.active_timeout_ms),
                             disconnect_signal: None,
                         });
 
@@ -554,7 +554,7 @@ impl Server {
                         .half_connection
                         .handle_data_frame(frame);
 
-                    state.timeout_time_ms = now_ms + self.config.endpoint_config.active_timeout_ms;
+                    state.timeout_time_ms = now_ms.saturating_add(self.config.endpoint_config.active_timeout_ms);
                 }
                 _ => (),
             }
@@ -576,7 +576,7 @@ impl Server {
                         .half_connection
                         .handle_ack_frame(frame);
 
-                    state.timeout_time_ms = now_ms + self.config.endpoint_config.active_timeout_ms;
+                    state.timeout_time_ms = now_ms.saturating_add(self.config.endpoint_config.active_timeout_ms);
                 }
                 _ => (),
             }
@@ -598,7 +598,7 @@ impl Server {
                         .half_connection
                         .handle_sync_frame(frame);
 
-                    state.timeout_time_ms = now_ms + self.config.endpoint_config.active_timeout_ms;
+                    state.timeout_time_ms = now_ms.saturating_add(self.config.endpoint_config.active_timeout_ms);
                 }
                 _ => (),
             }
